@@ -3,7 +3,7 @@
    sweep of the 128/64 division algorithm at 3-bit halves. *)
 From Coq Require Import Arith NArith ZArith List Bool Lia Psatz.
 From Coq Require Import ZifyBool ZifyNat ZifyN.
-From Qv Require Import BigIntModel BigIntProofs BigIntProofs2 BigIntHelpers BigIntShift BigIntShiftL BigIntBits BigIntFfb BigIntWide BigIntNarrow BigIntSetWide BigIntOrAnd.
+From Qv Require Import BigIntModel BigIntProofs BigIntProofs2 BigIntHelpers BigIntShift BigIntShiftL BigIntBits BigIntFfb BigIntWide BigIntNarrow BigIntSetWide BigIntOrAnd BigIntMove.
 Import ListNotations.
 Local Open Scope N_scope.
 
@@ -36,13 +36,19 @@ Section W.
   | P_Narrow : forall tw, (tw <= w \/ exists c : nat, (2 <= c)%nat /\ tw = w * N.of_nat c) -> proved_op (ONarrow tw)
   | P_Ffb : proved_op OFfb
   | P_Flb : proved_op OFlb
-  | P_Cmp : forall v, proved_op (OCmp v).
+  | P_Cmp : forall v, proved_op (OCmp v)
+  | P_DivAssign : forall v, proved_op (ODivAssign v)
+  | P_MoveAssign : forall ow v, ow <= w \/ 2 * w <= ow -> proved_op (OMoveAssign ow v)
+  | P_MoveRound : proved_op OMoveRound
+  | P_CopyRound : proved_op OCopyRound
+  | P_SelfMove : proved_op OSelfMove
+  | P_Poke : forall i v k, proved_op (OPoke i v k).
 
   (* the only side conditions: operand / target TYPES are at most one word or a whole number (>= 2)
      of words wide -- true of uint8/16/32/64 operands on uint8/16/32/64 words *)
   Definition op_types_ok (o : op) : Prop :=
     match o with
-    | OSet ow _ | OAdd ow _ | OSub ow _ | OOr ow _ | OAnd ow _ | OCopy ow _ => ow <= w \/ 2 * w <= ow
+    | OSet ow _ | OAdd ow _ | OSub ow _ | OOr ow _ | OAnd ow _ | OCopy ow _ | OMoveAssign ow _ => ow <= w \/ 2 * w <= ow
     | ONarrow tw => tw <= w \/ exists c : nat, (2 <= c)%nat /\ tw = w * N.of_nat c
     | _ => True
     end.
@@ -144,7 +150,7 @@ Section W.
     exists s', run_op w s o = Ok (s', r) /\ WF w s' /\ bval s' = v' /\ length (words s') = n.
   Proof.
     intros Hmul Hdiv n s o v' r Hp HWF Hn Hs.
-    destruct Hp as [v i|v i|ow v How|ow v How|v|v|k|k| |ow v How|ow v How|ow v How|ow v How|tw Htw| | |v]; cbn [spec_op run_op] in *; rewrite ?lim_pw in Hs.
+    destruct Hp as [v i|v i|ow v How|ow v How|v|v|k|k| |ow v How|ow v How|ow v How|ow v How|tw Htw| | |v|v|ow v How| | | |i v k]; cbn [spec_op run_op] in *; rewrite ?lim_pw in Hs.
     - destruct (N.ltb_spec v B) as [Hv|]; [|discriminate].
       destruct (N.ltb_spec (bval s + v * pw i) (pw n)) as [Hfit|]; [|discriminate].
       inversion Hs; subst v' r.
@@ -242,6 +248,38 @@ Section W.
       rewrite (find_last_bit_correct w w_pos s HWF Hnz). cbn [bind]. exists s. repeat split; try apply HWF; auto.
     - destruct (N.ltb_spec v B) as [Hv|]; [|discriminate]. inversion Hs; subst v' r.
       rewrite (compare_correct s v HWF Hv). cbn [bind]. exists s. repeat split; try apply HWF; auto.
+    - destruct (N.eqb_spec v 0) as [|Hv0]; [discriminate|].
+      destruct (N.leb_spec B v) as [|Hv]; [discriminate|]. cbn [orb] in Hs.
+      inversion Hs; subst v' r.
+      destruct (divide_correct w Hdiv s v HWF ltac:(lia)) as (s' & r' & Hrun & HWF' & Hval & Hr & Hl).
+      rewrite Hrun. cbn [bind]. exists s'. repeat split; try apply HWF'; auto; lia.
+    - destruct (N.ltb_spec v (2 ^ ow)) as [Hvo|]; [|discriminate].
+      destruct (N.ltb_spec v (pw n)) as [Hfit|]; [|discriminate]. inversion Hs; subst v' r.
+      assert (Hn0 : (0 < length (words s))%nat) by (destruct HWF as ((_ & Hi & _) & _); lia).
+      destruct (zero_big_WF (length (words s)) Hn0) as (HWFz & _).
+      assert (Hlz : length (words (zero_big (length (words s)))) = length (words s)) by (cbn; apply repeat_length).
+      destruct (assign_any ow (zero_big (length (words s))) v How Hvo HWFz ltac:(rewrite Hlz, Hn; exact Hfit))
+        as (src & Hrun1 & HWFs & Hvs & Hls).
+      rewrite Hrun1. cbn [bind].
+      destruct (move_assign_correct w s src HWF HWFs ltac:(lia)) as (s' & src' & Hrun & HWF' & Hval & _ & _ & Hobs & Hl & _).
+      rewrite Hrun. cbn [bind]. rewrite Hobs. exists s'. repeat split; try apply HWF'; auto; lia.
+    - inversion Hs; subst v' r.
+      destruct (move_construct_correct w s HWF) as (t & s1 & Hrun1 & HWFt & Hvt & HWF1 & _ & Hobs1 & Hlt & Hl1).
+      rewrite Hrun1. cbn [bind].
+      destruct (move_assign_correct w s1 t HWF1 HWFt ltac:(lia)) as (s2 & t' & Hrun2 & HWF2 & Hv2 & _ & _ & Hobs2 & Hl2 & _).
+      rewrite Hrun2. cbn [bind]. rewrite Hobs1, Hobs2. exists s2. repeat split; try apply HWF2; auto; lia.
+    - inversion Hs; subst v' r.
+      destruct (construct_copy_correct w s HWF) as (t & Hrun1 & HWFt & Hvt & Hlt). rewrite Hrun1. cbn [bind].
+      destruct (clear_correct w s (proj1 HWF)) as (s1 & Hrun2 & HWF1 & _ & Hl1). rewrite Hrun2. cbn [bind].
+      destruct (copy_assign_correct w s1 t HWF1 HWFt ltac:(lia)) as (s2 & Hrun3 & HWF2 & Hv2 & Hl2).
+      rewrite Hrun3. cbn [bind]. exists s2. repeat split; try apply HWF2; auto; lia.
+    - inversion Hs; subst v' r. exists s. repeat split; try apply HWF; auto.
+    - destruct (Nat.ltb_spec i n) as [Hi|]; [|discriminate].
+      destruct (N.ltb_spec v B) as [Hv|]; [|discriminate]. cbn [andb] in Hs.
+      match type of Hs with (if (k =? ?t)%nat then _ else _) = _ => destruct (Nat.eqb_spec k t) as [Hk|]; [|discriminate] end.
+      inversion Hs; subst v' r.
+      destruct (poke_correct w w_pos s i v k HWF ltac:(lia) Hv Hk) as (s' & Hrun & HWF' & Hval & Hl).
+      rewrite Hrun. cbn [bind]. exists s'. repeat split; try apply HWF'; auto; lia.
   Qed.
 
   (* what the specification says about a whole history; None as soon as a result
@@ -397,4 +435,30 @@ Proof.
     | |- proved_op _ _ => constructor
     end.
   - eexists. split; [vm_compute; reflexivity|reflexivity].
+Qed.
+
+(* non-vacuity of the construction / move / SetIndex operations (8-bit words, 3 words) *)
+Example move_setindex_example :
+  let ops := [OSet 8 7; OShl 8; OOr 8 5; OMoveRound; OCopyRound; OSelfMove; OMoveAssign 8 9; OPoke 2 1 2;
+              ODivAssign 3; OPoke 2 0 1; OPoke 1 0 0] in
+  Forall (proved_op 8) ops /\
+  spec_run 8 3 0 ops = Some [(7, 0); (1792, 0); (1797, 0); (1797, 0); (1797, 0); (1797, 0); (9, 0); (65545, 0);
+                             (21848, 0); (21848, 0); (88, 0)] /\
+  map (fun e => match e with Ok (s, r) => Some (words s, index s, r) | Error _ => None end)
+      (run_ops 8 (zero_big 3) ops)
+  = [Some ([7; 0; 0], 0%nat, 0); Some ([0; 7; 0], 1%nat, 0); Some ([5; 7; 0], 1%nat, 0); Some ([5; 7; 0], 1%nat, 0);
+     Some ([5; 7; 0], 1%nat, 0); Some ([5; 7; 0], 1%nat, 0); Some ([9; 0; 0], 0%nat, 0); Some ([9; 0; 1], 2%nat, 0);
+     Some ([88; 85; 0], 1%nat, 0); Some ([88; 85; 0], 1%nat, 0); Some ([88; 0; 0], 0%nat, 0)].
+Proof.
+  split; [|split; vm_compute; reflexivity].
+  cbv zeta.
+  repeat match goal with
+         | |- Forall _ (_ :: _) => apply Forall_cons
+         | |- Forall _ [] => apply Forall_nil
+         end;
+  match goal with
+  | |- proved_op _ _ => constructor; ((left; lia) || (right; lia))
+  | |- proved_op _ _ => constructor; lia
+  | |- proved_op _ _ => constructor
+  end.
 Qed.
